@@ -16,7 +16,7 @@
    1680 for the 3-call flows); requests that are refused make fewer calls and simply drop out.
    Beyond the bound: serial_K_once holds for ARBITRARY worlds, stores with unique index values and
    request pairs. *)
-From Verif Require Import Base Scope Types Prog Pop Token Authorize System Config Run Monitors Race RaceUri RaceStrict Fresh OneShot C15Sweeps C15UriDefs C15UriSweeps C15UriProofs C15Proofs C15StrictSweeps C15StrictProofs.
+From Verif Require Import Base Scope Types Prog Pop Token Authorize System Config Run Monitors Race RaceUri RaceStrict Fresh OneShot C15Sweeps C15UriDefs C15UriSweeps C15UriProofs C15Proofs C15StrictSweeps C15StrictProofs RaceMixed C15MixedSweeps.
 Local Open Scope nat_scope.
 
 (* ---- the schedules quantified over are all of them ---- *)
@@ -392,3 +392,60 @@ Example e2e_overlap_two_codes_one_redeemable :
   In sched (race_schedules su 2) /\ successes su 2 sched = 2 /\
   e2e_outcomes exec false su 2 sched = [false; true] /\ e2e_outcomes exec true su 2 sched = [false; true].
 Proof. vm_compute. repeat split; auto 60. Qed.
+
+(* ================================================================================================== *)
+(* ---- MIXED VERDICTS (Model/RaceMixed.v): racing CIBA polls of one auth_req_id that the embedder's validation
+        function answers DIFFERENTLY (a polling-interval limiter: slow_down / authorization_pending for one poll,
+        success for another; a user who denies while a poll is in flight), then ONE MORE approved poll.
+        mx_cases k = every list of k verdicts out of approve / pending / slow_down / deny with at most one approve
+        (two approved polls in flight: the known window K4, theorems race_auth_req_id_classification etc.); mx_schedules su vs = every
+        interleaving of the polls' storage calls, poll i making the calls of its verdict's unchanged flow.
+        The unchanged flow per verdict, one poll served alone: a poll that is told to WAIT looks the session up
+        and writes NOTHING. ---- *)
+Theorem poll_flows_per_verdict : forall rotation, let su := setup_of (scn_ciba rotation) in
+  mx_solo_log su BaApprove = [KCGet; KAGet; KADel; KGSave] /\
+  mx_solo_log su BaPending = [KCGet; KAGet] /\
+  mx_solo_log su BaSlowDown = [KCGet; KAGet] /\
+  mx_solo_log su BaDeny = [KCGet; KAGet; KADel].
+Proof. exact sweep_mixed_solo. Qed.
+Print Assumptions poll_flows_per_verdict.
+
+(* two racing polls (all 15 verdict lists, rotation on and off, every interleaving), lenient and strict storage:
+   AT MOST ONE token response per auth_req_id over the race and the follow-up poll, and on every schedule the polls
+   that were told to wait performed exactly CGet AGet (wait_logs_ok) *)
+Theorem race_auth_req_id_mixed_verdicts_one_token_response : forall rotation vs sched strict, In vs (mx_cases 2) ->
+  let su := setup_of (scn_ciba rotation) in
+  In sched (mx_schedules su vs) ->
+  mx_tokens (sem_of strict) su vs sched <= 1 /\ wait_logs_ok vs (mx_logs (sem_of strict) su vs sched) = true.
+Proof. exact mixed_two_lemma. Qed.
+Print Assumptions race_auth_req_id_mixed_verdicts_one_token_response.
+
+(* three racing polls (all 54 verdict lists, 41040 interleavings in all), rotation on and off *)
+Theorem race_auth_req_id_mixed_verdicts_one_token_response_three : forall rotation vs sched strict, In vs (mx_cases 3) ->
+  let su := setup_of (scn_ciba rotation) in
+  In sched (mx_schedules su vs) ->
+  mx_tokens (sem_of strict) su vs sched <= 1 /\ wait_logs_ok vs (mx_logs (sem_of strict) su vs sched) = true.
+Proof. exact mixed_three_lemma. Qed.
+Print Assumptions race_auth_req_id_mixed_verdicts_one_token_response_three.
+
+(* without a deny among the racing polls the count is EXACTLY one: the approved racing poll, or else the follow-up *)
+Theorem race_auth_req_id_mixed_verdicts_exactly_one : forall rotation vs sched strict, In vs (mx_cases 2) ->
+  existsb (fun v => match v with BaDeny => true | _ => false end) vs = false ->
+  let su := setup_of (scn_ciba rotation) in
+  In sched (mx_schedules su vs) -> mx_tokens (sem_of strict) su vs sched = 1.
+Proof. exact mixed_exact_lemma. Qed.
+Print Assumptions race_auth_req_id_mixed_verdicts_exactly_one.
+
+(* non-vacuity: the four verdict pairs are among the cases; on the schedule lookup(B) < delete(A) the approved poll A
+   wins and the follow-up is refused; two pending polls leave the session to the follow-up *)
+Example mixed_verdicts_cases :
+  In [BaApprove; BaPending] (mx_cases 2) /\ In [BaApprove; BaSlowDown] (mx_cases 2) /\
+  In [BaApprove; BaDeny] (mx_cases 2) /\ In [BaPending; BaPending] (mx_cases 2) /\
+  In [BaPending; BaApprove; BaSlowDown] (mx_cases 3) /\
+  (let su := setup_of (scn_ciba true) in
+   In [1; 1; 0; 0; 0; 0] (mx_schedules su [BaApprove; BaPending]) /\
+   mx_outcomes exec su [BaApprove; BaPending] [1; 1; 0; 0; 0; 0] = [true; false; false] /\
+   mx_outcomes exec su [BaPending; BaPending] [0; 1; 1; 0] = [false; false; true] /\
+   mx_outcomes exec su [BaApprove; BaDeny] [0; 0; 1; 1; 1; 0; 0] = [true; false; false] /\
+   mx_outcomes exec_strict su [BaApprove; BaDeny] [0; 0; 1; 1; 1; 0; 0] = [false; false; false]).
+Proof. vm_compute. repeat split; auto 80. Qed.
